@@ -37,7 +37,9 @@ COMPONENTS = {
     "real": ["comm.server (TCPServer.run, _TCPServerRequestHandler, _RequestHandler, shutdown thread)",
              "socketserver (serve_forever, _handle_request_noblock, StreamRequestHandler, shutdown)",
              "json", "comm.protocol", "comm.protocol_v1", "ledger.protocol", "ledger.hsm2dongle",
-             "ledger.block_utils", "comm.bitcoin", "rlp", "ledgerblue HID transport"],
+             "ledger.block_utils", "comm.bitcoin", "rlp", "ledgerblue HID transport",
+             "logging (half of the runs: the deployed default configuration - real StreamHandler, every "
+             "record formatted, output discarded; the other half: disabled)"],
     "stub": ["client sockets / listener / selector (SimNet)", "threading primitives (baton scheduler)",
              "hid link", "benign device model (record-only)", "bitcoin.core stand-in", "clock"],
 }
@@ -78,7 +80,10 @@ def gen_line(ch, cfg, v1):
         return ch.pick([b"\xff\xfe{}", b'{"command": "\xc3\x28"}', b"\x80", b'{"a":"\xed\xa0\x80"}'],
                        "badutf8"), k
     if k == "deep-nesting":
-        n = ch.pick([cfg["deep"], 2000, 1000, 990], "deep.n")
+        # (far beyond what the parser takes, around the interpreter's limits, and in the narrow band
+        # where the parser still accepts what can no longer be rendered)
+        n = ch.pick([cfg["deep"], 2000, 1000, 990, 1400 + ch.draw(130, "deep.near-limit"),
+                     1480 + ch.draw(30, "deep.nearer")], "deep.n")
         shape = ch.draw(3, "deep.shape")
         if shape == 0:
             return b"[" * n, k
@@ -228,6 +233,17 @@ def check_reply(data, eof):
 
 
 def run_one(ch, cfg):
+    # half of the runs log as the deployed manager does (every record formatted, output discarded):
+    # what a request does to the logging calls on its way is part of what it does to the manager
+    log_on = ch.draw(2, "logging.as-deployed") == 1
+    boot.logging_as_deployed(log_on)
+    try:
+        return _run_one(ch, cfg)
+    finally:
+        boot.logging_as_deployed(False)
+
+
+def _run_one(ch, cfg):
     v1 = ch.draw(6, "mode.v1") == 1
     dcfg = {"post_exit_signer": {"mode": 0x04, "delay": 0.2, "silence": "read_err"},
             "post_exit_uihb": {"mode": 0x03, "delay": 0.2, "silence": "read_err"}}
